@@ -117,3 +117,93 @@ R.contract(
     ]}},
     locals={"scored": SCORED},
 )
+
+# ------------------------------------------------------------------ _filter_quarters
+# _to_quarter(ts) is seen as a function of the string (exact for well-formed timestamps; a malformed one is read as
+# "now" by the real code, i.e. the current quarter: ND)
+R.opaque(INDEX + "_to_quarter", "quarter_of", ["str"], "str")
+_HASQ = "(not is_none(quarters) and len(some(quarters)) > 0)"
+R.contract(
+    INDEX + "InMemoryIndex._filter_quarters", "C11",
+    types={"self": "MemIndex", "eps": EPS, "quarters": "Optional[List[str]]"},
+    returns=EPS,
+    ensures=[
+        ("no-quarters-identity", "implies(not " + _HASQ + ", seq_eq(result, eps))"),
+        ("kept-are-inputs", "forall(m, 0 <= m < len(result), exists(j, 0 <= j < len(eps), eps[j] == result[m]))"),
+        ("kept-in-listed-quarter", "implies(" + _HASQ + ", forall(m, 0 <= m < len(result), quarter_of(ep_ts(result[m])) in some(quarters)))"),
+        ("listed-quarter-kept", "implies(" + _HASQ + ", forall(j, 0 <= j < len(eps), implies(quarter_of(ep_ts(eps[j])) in some(quarters), "
+                                "exists(m, 0 <= m < len(result), result[m] == eps[j]))))"),
+        ("no-longer-than-input", "len(result) <= len(eps)"),
+        ("input-untouched", "seq_eq(eps, old(eps)) and seq_eq(self._eps, old(self._eps))"),
+    ],
+    raises="none",
+)
+
+# ------------------------------------------------------------------ _search_with_episodes (per tier)
+R.record("EpisodeRef", {"id": "Un[EpId]", "owner": "str", "score": "float", "text": "str"}, pyclass="clematis.engine.types:EpisodeRef")
+# hints: the code reads sim_threshold / archive_quarters / now through .get() and treats a missing key exactly like a
+# None value, so these are modelled as always-present Optional values (halves the shape forks each); recent_days and
+# clusters_top_m have non-None defaults: genuinely optional keys
+R.dictrec("SearchHints", {"recent_days?": "int", "clusters_top_m?": "int", "sim_threshold": "Optional[float]",
+                          "archive_quarters": "Optional[List[str]]", "now": "Optional[str]"})
+_REF = ("(%(e)s['id'] == %(r)s.id and %(r)s.owner == %(e)s.get('owner', '') and %(r)s.text == %(e)s.get('text', '') and "
+        "'vec_full' in %(e)s and %(r)s.score == cosine(q_vec, %(e)s['vec_full']))")
+_VISIBLE = "(is_none(owner) or ('owner' in %(e)s and %(e)s['owner'] == some(owner)))"
+_OUT_LOOP = {3: {"inv": [
+    "len(out) == _i",
+    "forall(j, 0 <= j < _i, out[j].id == _iter[j][0]['id'] and out[j].owner == _iter[j][0].get('owner', '') and "
+    "out[j].score == _iter[j][1] and out[j].text == _iter[j][0].get('text', ''))",
+]}}
+_SEARCH_TYPES = {"self": "MemIndex", "episodes": EPS, "owner": "Optional[str]", "q_vec": "Un[Vec]", "k": "int", "hints": "SearchHints"}
+_SEARCH_LOCALS = {"out": "List[EpisodeRef]", "results": SCORED}
+_COMMON = [
+    ("at-most-k", "len(result) <= k"),
+    ("owner-scope", "implies(not is_none(owner), forall(i, 0 <= i < len(result), result[i].owner == some(owner)))"),
+    ("similarity-threshold", "forall(i, 0 <= i < len(result), result[i].score >= hint_thr(hints))"),
+    ("hits-are-visible-scored-episodes",
+     "forall(i, 0 <= i < len(result), exists(j, 0 <= j < len(episodes), " + _REF % {"e": "episodes[j]", "r": "result[i]"} +
+     " and " + _VISIBLE % {"e": "episodes[j]"} + "))"),
+    ("ordered-by-score-desc-then-id",
+     "forall2(i, j, 0 <= i and i < j and j < len(result), (0 - result[i].score, result[i].id) <= (0 - result[j].score, result[j].id))"),
+    ("inputs-untouched", "seq_eq(episodes, old(episodes)) and seq_eq(self._eps, old(self._eps)) and self._ver == old(self._ver)"),
+]
+_NOW_OK = "(not is_none(hints['now']) and iso_ok(some(hints['now'])))"
+_DAYS = "hints.get('recent_days', 30)"
+
+R.contract(
+    INDEX + "InMemoryIndex._search_with_episodes", "C11", name="InMemoryIndex._search_with_episodes[exact]",
+    types=dict(_SEARCH_TYPES, tier="='exact_semantic'"),
+    returns="List[EpisodeRef]",
+    requires=[("validator-range", "k >= 0")],
+    ensures=_COMMON + [
+        ("exact-tier-recency-window",
+         "implies(" + _NOW_OK + " and " + _DAYS + " > 0, forall(i, 0 <= i < len(result), exists(j, 0 <= j < len(episodes), "
+         "episodes[j]['id'] == result[i].id and result[i].text == episodes[j].get('text', '') and " + _VISIBLE % {"e": "episodes[j]"} + " and "
+         "implies(iso_ok(ep_ts(episodes[j])), iso_value(ep_ts(episodes[j])) >= iso_value(some(hints['now'])) - 86400 * " + _DAYS + "))))"),
+    ],
+    raises="none",
+    loops=_OUT_LOOP, locals=_SEARCH_LOCALS,
+)
+R.contract(
+    INDEX + "InMemoryIndex._search_with_episodes", "C11", name="InMemoryIndex._search_with_episodes[archive]", callee=False,
+    types=dict(_SEARCH_TYPES, tier="='archive'"),
+    returns="List[EpisodeRef]",
+    requires=[("validator-range", "k >= 0")],
+    ensures=_COMMON + [
+        ("archive-tier-quarters",
+         "implies(not is_none(hints['archive_quarters']) and len(some(hints['archive_quarters'])) > 0, "
+         "forall(i, 0 <= i < len(result), exists(j, 0 <= j < len(episodes), episodes[j]['id'] == result[i].id and "
+         "result[i].text == episodes[j].get('text', '') and quarter_of(ep_ts(episodes[j])) in some(hints['archive_quarters']))))"),
+    ],
+    raises="none",
+    loops=_OUT_LOOP, locals=_SEARCH_LOCALS,
+)
+R.contract(
+    INDEX + "InMemoryIndex._search_with_episodes", "C11", name="InMemoryIndex._search_with_episodes[unknown-tier]", callee=False,
+    types=dict(_SEARCH_TYPES, tier="str"),
+    returns="List[EpisodeRef]",
+    requires=[("not-a-known-tier", "tier != 'exact_semantic' and tier != 'cluster_semantic' and tier != 'archive'")],
+    ensures=[("unknown-tier-yields-nothing", "len(result) == 0"), _COMMON[-1]],
+    raises="none",
+    loops=_OUT_LOOP, locals=_SEARCH_LOCALS,
+)
